@@ -80,6 +80,16 @@ Proof. exact n_traversal_fee. Qed.
 Theorem c07_turn_surcharge : forall (r : nrate Q) pe, n_access QN r pe == turn_fee r pe.
 Proof. exact n_access_fee. Qed.
 
+(* ---- surcharges configured through CSV files (NetworkCostRateBuilder): whatever the nesting of `combined`, the rate
+   the builder returns charges for every edge / edge pair the SUM over ALL configured tables (a table's value for a
+   key = its last row with that key, 0 if none); no table is dropped, merged or overridden by another *)
+Theorem c07_builder_charges_sum_of_tables : forall (b : nbuilder Q) r, nbuild b = Ok r ->
+  (forall e, n_traversal QN r e == builder_edge_fee b e) /\ (forall pe, n_access QN r pe == builder_turn_fee b pe).
+Proof. exact nbuild_charged. Qed.
+Example c07_builder_nonvacuous : exists r, nbuild ex_builder = Ok r
+  /\ n_traversal QN r 7%Z == 11 # 2 /\ n_access QN r (3%Z, 7%Z) == 3 # 2 /\ n_traversal QN r 5%Z == 0.
+Proof. exact ex_builder_sums. Qed.
+
 (* ---- linear in the weights (before the floor), and on the model: the charge for weights ca*u + cb*v *)
 Theorem c07_sum_linear_in_weights : forall ca u cb v fs pe e p n,
   List.length u = List.length fs -> List.length v = List.length fs ->
@@ -155,6 +165,8 @@ Print Assumptions c07_floor_pos_spec.
 Print Assumptions c07_rate_is_affine.
 Print Assumptions c07_edge_surcharge.
 Print Assumptions c07_turn_surcharge.
+Print Assumptions c07_builder_charges_sum_of_tables.
+Print Assumptions c07_builder_nonvacuous.
 Print Assumptions c07_sum_linear_in_weights.
 Print Assumptions c07_sum_charge_linear.
 Print Assumptions c07_zero_weight_ignored.
